@@ -697,7 +697,11 @@ class EnsembleServlet(Servlet):
                 if stopping:
                     # All the members had stopped before this round of checks,
                     # and they have left nothing in their output queues.
-                    qout.put(None)
+                    # Do not put an end marker in `qout` (workers do not either):
+                    # its reader is stopped by its own servlet or server. As a member
+                    # of a `SwitchServlet`, this servlet shares `qout` with siblings
+                    # that may still be delivering results; the next stage must not
+                    # quit before it has taken them.
                     return
                 sleep(0.005)  # TODO: what is a good duration?
 
